@@ -45,6 +45,7 @@ type vfCore struct {
 	calls    []vfRoute
 	result   error // returned by RouteSend*/RouteCall*
 	security gen.SecurityOptions
+	env      map[gen.Env]any
 	refs     uint64
 	scribble bool
 }
@@ -54,7 +55,7 @@ func (c *vfCore) Creation() int64               { return c.creation }
 func (c *vfCore) PID() gen.PID                  { return gen.PID{Node: c.name, ID: 1, Creation: c.creation} }
 func (c *vfCore) Security() gen.SecurityOptions { return c.security }
 func (c *vfCore) LogLevel() gen.LogLevel        { return gen.LogLevelInfo }
-func (c *vfCore) EnvList() map[gen.Env]any      { return nil }
+func (c *vfCore) EnvList() map[gen.Env]any      { return c.env }
 func (c *vfCore) MakeRef() gen.Ref {
 	c.refs++
 	return gen.Ref{Node: c.name, Creation: c.creation, ID: [3]uint64{c.refs, 0, 0}}
